@@ -967,7 +967,7 @@ def generate(rng, tier):
         else:
             d2 = rng.random() < 0.35
             if kind == "thr99":
-                im = rng.choice([100, 100, 200, 300]); th = rng.choice([1, 2, 5, 10]); s_ = im // th; b_ = im - th * s_
+                im = rng.choice([100, 100, 100, 200]); th = rng.choice([1, 2, 5, 10]); s_ = im // th; b_ = im - th * s_
                 sg = 10 ** rng.uniform(-2.6, -1.9); fx = C(rng.choice([1.0, 0.25, 3.0])); dm = [0.0, 1.0, 0.0, 1.0] if d2 else [0.0, 1.0]
                 if d2: sg *= 0.6
             else:
@@ -982,7 +982,7 @@ def generate(rng, tier):
             # aimed: generator states on which exactly one candidate in a hundred leaves the domain (constant density: every other acceptance
             # probability is exactly 1), so the average is the double 0.99 = 1.0 - 1e-2, the threshold itself; and one candidate more / fewer
             want = im // 100 + rng.choice([0, 0, 0, 1, -1])
-            for _try in range(60):
+            for _try in range(10):
                 _, _, us_, ops_ = parse_seq(cw.line); tot = avg_accept(2 if d2 else 1, us_, 0, (ops_[0][1], ops_[0][2]) if d2 else (ops_[0][1],), im, dm, ops_[0][-1])
                 if tot is not None and im - tot == want: cw = Case(cw.line, cw.tags + ("on-threshold" if want == im // 100 else "beside-threshold",)); break
                 cw = as_w(seq_case(seed(), [o], n + 1, ()), ("seqw", kind, o.split()[0]))
